@@ -157,6 +157,9 @@ func worldC11(w *World) {
 	readPause := []time.Duration{0, 0, 0, 200 * time.Millisecond, time.Second}[t.Choice(5, "backendreadpause")]
 	wb.ReadPause = func(string) time.Duration { return readPause }
 	w.K.SendBuf = []int{64 << 10, 64 << 10, 4 << 10}[t.Choice(3, "sendbuf")]
+	if readPause > 0 && w.K.SendBuf > 4<<10 && t.Rare(1, 2, "smallbuf-behind-slow-reader") {
+		w.K.SendBuf = 4 << 10
+	}
 	closeAtOnce := t.Rare(1, 2, "closeatonce")
 	if readPause > 0 {
 		closeAtOnce = t.Rare(3, 4, "closeatonce2")
